@@ -67,6 +67,7 @@ CODES = {
     114: 'search with offset + limit above MaxInt64 killed the process (repaired by d9d61df; a recurrence is a violation)',
     115: 'GET collection whose stored alpha is NaN: 500 (NaN refused at creation since 7915fec; a recurrence is a violation)',
     116: 'search whose answer carries a stored NaN/Inf value: 500',
+    118: 'after the request a stored point is larger than the point size limit of the plan of its collection (e.g. an update that is small on its own but grows the stored point over the limit is applied)',
     117: 'MessagePack body nested about a million levels deep: fatal stack overflow, the process dies',
     121: 'collection creation with alpha outside the documented interval (NaN) accepted (repaired by 7915fec; a recurrence is a violation)',
     122: 'collection creation with a binary-quantizer triggerThreshold outside the documented range accepted (repaired by 6c2a6b8; a recurrence is a violation)',
@@ -97,3 +98,4 @@ LEVEL = {
     'technique': 'Coq proof (validation implies the dimension guard and the documented limits, over constants regenerated from the binding '
                  'tags and Validate bodies) + structured-mutation and raw-byte streams over the real HTTP stack of both API versions',
 }
+CFG['rule'] = CFG['rule'] + ' ' + 'Stored sizes: after every recorded request every shard is asked for the raw stored data of the known ids; a point larger than the MaxPointSize of its collection plan is code 118 (sequences plan:update-merged-size-over / plan:update-replaced-size-at: 140 stored bytes + an update of 120 bytes under a limit of 200). Collection ids: the binding tag alphanum is part of the documented limits (doc_create2 / doc_create1), a created collection whose id has another character is code 102.'
